@@ -119,6 +119,9 @@ func perturb(name string, p *protocol.Protocol) {
 		return
 	}
 	e := x.(*engine)
+	if e.holdPoint != "" && e.holdPoint == name {
+		e.park()
+	}
 	if e.pert == 0 {
 		return
 	}
